@@ -10,6 +10,7 @@ import (
 	"sort"
 	"strings"
 	"sync"
+	"time"
 	"unicode"
 
 	"github.com/samsarahq/thunder/internal/fields"
@@ -911,6 +912,12 @@ func driverValuesEqual(dv1, dv2 driver.Value) bool {
 			}
 		}
 		return false
+	}
+
+	// Instants are equal whatever location they are expressed in.
+	if t1, ok := dv1.(time.Time); ok {
+		t2, ok := dv2.(time.Time)
+		return ok && t1.Equal(t2)
 	}
 
 	// Naive equality check for remaining primitive types.
